@@ -42,6 +42,9 @@ class C12(Prop):
                 enc.append(("tuple", list(seq)))
         enc.append(("list", [0, 1, 2, 3, 4, 5, 6, 0]))
         enc.append(("frozenset", [1, 3]))
+        second = list(enc)
+        ctx.rng.shuffle(second)
+        enc += second        # the same inputs again in another order (what was encoded before must not matter)
         return [{"kind": "enc", "items": enc}, {"kind": "dec", "masks": list(range(-2, 301)) + [511, 512, 1000, 65534]}]
 
     def execute(self, scn):
@@ -118,9 +121,21 @@ class C14(Prop):
                 chunk = []
         if chunk:
             out.append({"rows": chunk})
+        # history: a sample of rows again, in another order, in one long-lived process after everything above
+        rows = [r for sc in out if "zone" not in sc for r in sc["rows"]]
+        picked = ctx.rng.sample(rows, min(len(rows), 200))
+        out.append({"rows": [{"s": r["s"], "es": list(reversed(r["es"]))[:16]} for r in picked], "after_errors": True})
         return out
 
     def execute(self, scn):
+        if scn.get("after_errors") and not scn.get("_inner2"):
+            from aioswitcher.schedule.tools import calc_duration
+            for bad in (("25:00", "01:00"), ("aa", "bb"), ("12:00", "12:61"), ("", "")):
+                try:
+                    calc_duration(*bad)
+                except Exception:  # noqa: BLE001 - only to leave the function in whatever state an error leaves it in
+                    pass
+            return self.execute(dict(scn, _inner2=True))
         if "zone" in scn and not scn.get("_inner"):
             y, m, d = scn["date"]
             with host_zone(scn["zone"]), frozen(float(local_instant(scn["zone"], y, m, d, 12, 0))):
@@ -270,6 +285,11 @@ class C13(Prop):
                     pairs.append((a, b))
                 out.append({"zone": z, "date": [2026, 9, 28 + dd] if 28 + dd <= 30 else [2026, 10, 28 + dd - 30],
                             "pairs": pairs, "sec": ctx.rng.choice([0, 1, 30, 59])})
+        # history: the same process asked again on an EARLIER day and across new year (nothing remembered from before may leak)
+        for z in zones[:2]:
+            out.append({"zone": z, "date": [2026, 9, 21], "pairs": base[:6], "sec": 0})
+            out.append({"zone": z, "date": [2026, 12, 31], "pairs": [(1439, 0), (1439, 1439), (0, 0)], "sec": 59})
+            out.append({"zone": z, "date": [2027, 1, 1], "pairs": [(0, 0), (0, 1), (1, 0)], "sec": 0})
         return out
 
     def execute(self, scn):
